@@ -112,6 +112,7 @@ type frame struct {
 	panic            interface{}
 	phitemps         []value // temporaries for parallel phi assignment
 	pos              token.Pos
+	ext              bool // frame of an environment model (external)
 }
 
 func mustDeref(t types.Type) types.Type {
@@ -689,10 +690,15 @@ func callSSA(i *interpreter, caller *frame, callpos token.Pos, fn *ssa.Function,
 			return nil
 		}
 		if api := i.eng.apiFor(fn); api != nil {
+			fr.ext = true
 			return api(fr, args)
 		}
 		if ext := externals[name]; ext != nil {
 			i.ps.stubs[name]++
+			fr.ext = true
+			if caller != nil {
+				fr.pos = caller.pos
+			}
 			return ext(fr, args)
 		}
 		if fn.Blocks == nil {
@@ -850,8 +856,8 @@ func doRecover(caller *frame) value {
 // functions run without preemption.
 func (fr *frame) atomicCtx() bool {
 	for f := fr; f != nil; f = f.caller {
-		if f.fn.Blocks == nil {
-			continue // external model: look at its caller
+		if f.ext || f.fn.Blocks == nil {
+			continue // environment model: look at its caller
 		}
 		return !fr.i.eng.preemptible(f.fn)
 	}
@@ -861,7 +867,8 @@ func (fr *frame) atomicCtx() bool {
 func (fr *frame) doOp(op *pendingOp) {
 	s := fr.i.ps.sched
 	op.site = fr.i.ps.siteOf(fr)
-	if fr.atomicCtx() {
+	isChan := op.kind == opSend || op.kind == opRecv || op.kind == opSelect
+	if !isChan && fr.atomicCtx() {
 		if s.tryInline(op) {
 			return
 		}
@@ -897,10 +904,10 @@ func (fr *frame) chanClose(ch *channel) {
 	if ch.closed {
 		panic(targetPanic{iface{fr.i.runtimeErrorString, "close of closed channel"}})
 	}
-	// close never blocks; it is a visible operation nonetheless
-	if !fr.atomicCtx() {
-		fr.i.ps.sched.park(&pendingOp{kind: opResume})
-	}
+	// close never blocks; it is a visible operation nonetheless (also inside
+	// environment packages: its effect on waiting selects must be a declared
+	// transition for the sleep-set reduction to be sound)
+	fr.i.ps.sched.park(&pendingOp{kind: opResume, obj: ch, site: fr.i.ps.siteOf(fr)})
 	if ch.closed {
 		panic(targetPanic{iface{fr.i.runtimeErrorString, "close of closed channel"}})
 	}
